@@ -29,6 +29,8 @@ LEAN_MODULES = ["VgiVerif.Proofs.C10", "VgiVerif.Findings.C10"]
 OBLIGATIONS = [
     "VgiVerif.C10.C10_shapes",
     "VgiVerif.C10.C10_retry_shapes",
+    "VgiVerif.C10.C10_collector_shapes",
+    "VgiVerif.C10.C10_step_order",
     "VgiVerif.C10.C10_inputs_schema",
     "VgiVerif.C10.C10_inputs_reject",
     "VgiVerif.C10.C10_inputs_reach_state_pipe",
@@ -60,7 +62,9 @@ PARTIAL = [
     "lightly exercised; HttpStreamSession has no tick()",
 ]
 RULE = (
-    "coerce: declared schemas of 0-3 fields over 8 Arrow types x batches derived by identity / reorder / retype / extra / missing / "
+    "steps: svcgen {logs, act, post} steps, or (35%) op-level steps = a shuffled list of the collector calls of one process() "
+    "(client_log / emit / finish, now and then a raise or a second emit) so finish() comes before or after emit(); plus the grid of "
+    "every order of {emit, finish, log, log} in one step; coerce: declared schemas of 0-3 fields over 8 Arrow types x batches derived by identity / reorder / retype / extra / missing / "
     "renamed / duplicated fields / uncastable values; sessions: random methods (producer|exchange, header?, 0-2 init logs, 0-6 steps "
     "from emit/finish/emit+finish/raise/nothing, failing init) x op lists with a cancel or close at a uniformly chosen point "
     "(before the first batch, between, after the last) and 1-3 ops after it x {pipe, unix, tcp, shm, http cap None / 1e6 / "
@@ -273,8 +277,79 @@ VARIANTS_BAD = ["uncastable", "extra", "missing", "renamed", "dup", "empty"]
 def gen_method(rng: Any, kind: str | None = None) -> dict[str, Any]:
     kind = kind or rng.choice(["producer", "producer", "exchange"])
     init: Any = "ok" if rng.random() < 0.92 else {"raise": c01.gen_exc(rng)}
+    steps = gen_op_steps(rng, kind == "exchange") if rng.random() < 0.35 else c01.gen_steps(rng, kind == "exchange")
     return {"name": "m", "kind": kind, "header": rng.random() < 0.4, "hdr": rng.randrange(100), "init_logs": c01.gen_logs(rng, 2),
-            "init": init, "steps": c01.gen_steps(rng, kind == "exchange")}
+            "init": init, "steps": steps}
+
+
+def gen_op_steps(rng: Any, exchange: bool) -> list[dict[str, Any]]:
+    """Op-level steps: the collector calls of one process() as an ORDERED list — finish before or after emit, client logs
+    anywhere, now and then a raise or a second emit somewhere in the call."""
+    n = rng.choice([1, 2, 3, 4, 5])
+    steps = []
+    for k in range(n):
+        last = k == n - 1
+        ops: list[list[Any]] = [["log", c01.gen_log(rng)] for _ in range(rng.choice([0, 0, 1, 2]))]
+        r = rng.random()
+        if last and not exchange:
+            shape = rng.choice(["emit+finish", "emit+finish", "finish", "emit", "none"])
+        elif last and exchange and r < 0.3:
+            shape = rng.choice(["emit+finish", "finish"])
+        else:
+            shape = "emit" if r < 0.85 else rng.choice(["emit+finish", "none"])
+        if "emit" in shape:
+            ops.append(["emit", c01.gen_batch(rng, 10 + k)])
+        if "finish" in shape:
+            ops.append(["finish"])
+        r = rng.random()
+        if r < 0.08:
+            ops.append(["raise", c01.gen_exc(rng)])
+        elif r < 0.14:
+            ops.append(["emit", c01.gen_batch(rng, 50 + k)])
+        rng.shuffle(ops)                    # every order of the calls inside the step
+        steps.append({"ops": ops})
+    return steps
+
+
+def step_shape(step: dict[str, Any], producer: bool) -> tuple[str, int | None]:
+    """What a step means, from the property text: ("emit" | "emit_finish" | "finish" | "fail", batch id).  For an op-level step
+    the ORDER of finish() and emit() does not matter; a raise, a second emit, neither emit nor finish — or finish() on an
+    exchange stream — make the call fail and deliver no batch."""
+    if "ops" not in step:
+        a = step["act"]
+        if a == "finish":
+            return ("finish" if producer else "fail"), None
+        if a == "nothing" or "raise" in a:
+            return "fail", None
+        if "emit_finish" in a:
+            return ("emit_finish", a["emit_finish"]["id"]) if producer else ("fail", None)
+        return "emit", a["emit"]["id"]
+    kinds = [o[0] for o in step["ops"]]
+    emits = [o[1]["id"] for o in step["ops"] if o[0] == "emit"]
+    if "raise" in kinds or len(emits) > 1 or (not producer and "finish" in kinds):
+        return "fail", None
+    fin = "finish" in kinds
+    if emits:
+        return ("emit_finish" if fin else "emit"), emits[0]
+    return ("finish" if fin else "fail"), None
+
+
+def dstep(s: dict[str, Any]) -> dict[str, Any]:
+    """step descriptor for the Lean driver (svcgen steps as in C01; op-level steps as ordered call lists)"""
+    if "ops" not in s:
+        return c01.dstep(s)
+    out = []
+    for o in s["ops"]:
+        if o[0] == "log":
+            out.append(["log", c01.dlog(o[1])])
+        elif o[0] == "emit":
+            b = o[1]
+            out.append(["emit", {"id": b["id"], "rows": b.get("rows", 1), "meta": {k: s2j(v) for k, v in (b.get("meta") or {}).items()}}])
+        elif o[0] == "raise":
+            out.append(["raise", c01.dexc(o[1])])
+        else:
+            out.append(["finish"])
+    return {"ops": out}
 
 
 def gen_ops(rng: Any, m: dict[str, Any], http: bool) -> list[list[Any]]:
@@ -354,7 +429,7 @@ def model_args(m: dict[str, Any], ops: list[list[Any]], cfg: Config, brk: Any, d
             mops.append(list(op))
     init = m.get("init", "ok")
     md = {"decl": [] if m["kind"] == "producer" else [[s2j(f.name), s2j(c10util.ty_str(f))] for f in decl],
-          "steps": [c01.dstep(s) for s in m["steps"]], "header": m.get("hdr", 0) if m.get("header") else None,
+          "steps": [dstep(s) for s in m["steps"]], "header": m.get("hdr", 0) if m.get("header") else None,
           "init_logs": [c01.dlog(x) for x in m["init_logs"]], "init": None if init == "ok" else c01.dexc(init["raise"])}
     args: dict[str, Any] = {"transport": "http" if cfg.kind == "http" else "pipe", "method": md, "ops": mops, "casts": casts, "brk": brk}
     if chk is not None:
@@ -405,18 +480,13 @@ def spec_emitted(steps: list[dict[str, Any]]) -> tuple[list[int], str]:
     """ids of the batches a producer emits up to its finish, and how the stream ends: 'end' | 'error'"""
     out: list[int] = []
     for s in steps:
-        a = s["act"]
-        if a == "finish":
-            return out, "end"
-        if a == "nothing":
+        shape, ident = step_shape(s, True)
+        if shape == "fail":
             return out, "error"
-        if "emit" in a:
-            out.append(a["emit"]["id"])
-        elif "emit_finish" in a:
-            out.append(a["emit_finish"]["id"])
+        if ident is not None:
+            out.append(ident)
+        if shape in ("finish", "emit_finish"):
             return out, "end"
-        elif "raise" in a:
-            return out, "error"
     return out, "end"
 
 
@@ -482,7 +552,16 @@ def oracle(ctx: Any, case: dict[str, Any], m: dict[str, Any], ops: list[list[Any
                     ctx.fail(case, f"C10:exchange:output-without-process:{kindtag}", f"an input produced {nd} outputs without a process() call")
                 continue
             k = ks[0]
-            act = m["steps"][k]["act"] if k < len(m["steps"]) else {"emit": {}}
+            act: Any = {"emit": {}}
+            if k < len(m["steps"]):
+                st = m["steps"][k]
+                if "ops" in st:
+                    kinds = [o[0] for o in st["ops"]]
+                    if "raise" in kinds or kinds.count("emit") != 1:
+                        continue          # a failing call of mixed cause: which error comes first is the model's business (K)
+                    act = "finish" if "finish" in kinds else {"emit": {}}
+                else:
+                    act = st["act"]
             if isinstance(act, dict) and "emit" in act:
                 if nd != 1 or errs:
                     ctx.fail(case, f"C10:exchange:cardinality:{kindtag}", f"input played step {k} (emit): {nd} outputs, errors {errs[:1]}")
@@ -562,6 +641,13 @@ def check_session(ctx: Any, m: dict[str, Any], ops: list[list[Any]], cfg: Config
             tags.append("after-cancel:" + op[0])
     if m.get("header"):
         tags.append("header")
+    for st in m["steps"]:
+        if "ops" in st:
+            kinds = [o[0] for o in st["ops"]]
+            if "emit" in kinds and "finish" in kinds:
+                tags.append("step:finish-before-emit" if kinds.index("finish") < kinds.index("emit") else "step:emit-before-finish")
+            if "raise" in kinds or kinds.count("emit") > 1:
+                tags.append("step:failing-op-mix")
     if net is not None:
         tags.append(f"net:retries={net.get('retries')}")
         lost_kinds = sorted({e2 for ch, opn in zip(r["events"], ["open"] + [o[0] for o in ops]) for e in ch if e[0] == "lost" for e2 in [opn]})
@@ -701,6 +787,40 @@ def _net_corpus() -> list[tuple[dict[str, Any], list[list[Any]], dict[str, Any]]
     ]
 
 
+def order_grid(ctx: Any) -> None:
+    """Within-step call order: every permutation of {emit, finish, log} (and of {emit, finish}, {finish, log}, with two logs)
+    as the first / second step of a producer, consumed to the end, over pipe and three HTTP shapes; the same final steps on
+    an exchange stream (where finish is refused wherever it stands)."""
+    import itertools
+
+    lg = ["log", L("o")]
+    lg2 = ["log", L("o2")]
+    sets: list[list[list[Any]]] = [[["emit", None], ["finish"]], [["emit", None], ["finish"], lg], [["finish"], lg],
+                                   [["emit", None], lg], [["emit", None], ["finish"], lg, lg2]]
+    orders: list[list[list[Any]]] = []
+    for st in sets:
+        for perm in itertools.permutations(range(len(st))):
+            o = [list(st[i]) for i in perm]
+            if o not in orders:
+                orders.append(o)
+    cfgs = [Config("pipe"), Config("http", None, "zstd"), Config("http", 1_000_000, None), Config("http", 900, "gzip")]
+    rng = __import__("random").Random(4)
+    for o in orders:
+        for lead in (0, 1):
+            steps = [{"ops": [["emit", {"id": 1, "rows": 1, "meta": {}}]]}] * lead
+            last = [[x[0], {"id": 7, "rows": 2, "meta": {}}] if x[0] == "emit" else list(x) for x in o]
+            steps = steps + [{"ops": last}, {"ops": [["emit", {"id": 9, "rows": 1, "meta": {}}]]}]
+            m = {"name": "m", "kind": "producer", "header": False, "hdr": 0, "init_logs": [L("il")], "init": "ok", "steps": steps}
+            for cfg in cfgs:
+                check_session(ctx, m, [["iter", None]], cfg, extra_tags=("order-grid",))
+            if lead == 0:
+                mx = dict(m, kind="exchange")
+                check_session(ctx, mx, [["send", {"cols": input_cols(rng, "ok", 1)}], ["send", {"cols": input_cols(rng, "ok", 2)}]],
+                              cfgs[0], extra_tags=("order-grid",))
+                check_session(ctx, mx, [["send", {"cols": input_cols(rng, "ok", 1)}], ["send", {"cols": input_cols(rng, "ok", 2)}]],
+                              cfgs[1], extra_tags=("order-grid",))
+
+
 def exhaustive_grid(ctx: Any) -> None:
     """every step script of length ≤ 2 over {emit, finish, emit+finish, raise} × every cancel point × 3 transports"""
     acts = [lambda i: {"emit": {"id": i, "rows": 1, "meta": {}}}, lambda i: "finish", lambda i: {"emit_finish": {"id": i, "rows": 1, "meta": {}}},
@@ -740,7 +860,10 @@ def run(ctx: Any) -> None:
             check_session(ctx, m, ops, cfg, extra_tags=("corpus",))
     for m, ops, net in _net_corpus():
         check_session(ctx, m, ops, Config("http", None, "zstd"), extra_tags=("corpus", "corpus:net"), net=net)
+    order_grid(ctx)
     exhaustive_grid(ctx)
+    ctx.note("order_grid", "every order of the collector calls {emit, finish, log[, log]} inside one process() call, as first / "
+                           "second step, x {pipe, http, http(cap 1e6), http(cap 900)}; same steps on an exchange stream")
     ctx.note("grid", "all step scripts of length <= 2 over {emit, finish, emit+finish, raise} x {producer, exchange} x every "
                      "cancel point x {pipe, http, http(cap 1e6)} enumerated")
     for i in range(ctx.budget(100, 4000)):
